@@ -12,7 +12,7 @@ import (
 
 const (
 	parentI = "projects/p/instances/i"
-	parentJ = "projects/p/instances/j"
+	parentJ = "projects/p/instances/ij" // "…/i" is a proper prefix of it: listings must not leak across instances
 	tblU    = parentI + "/tables/u"
 	tblJT   = parentJ + "/tables/t"
 )
